@@ -24,6 +24,11 @@ CHECKS = {
    text="The module emitted for generated programs (definition names from JavaScript reserved/strict/module words and their twins, odd method and field names, recursion, init args) is evaluated under ECMAScript module rules by an interpreter of exactly the emitted subset, against an IDL object that builds a type graph; the returned service and init list must be bisimilar to the program's. Exploration.",
    note="No JavaScript engine decides verdicts; the interpreter's reading of ECMAScript lexical and binding rules is trusted (unit-tested).",
    ref="DESIGN.md §5 C17"),
+ "C18": dict(
+   technique="property-based translation checking by compilation: emitted Rust bindings for generated programs are compiled in batches with rustc and their types compared with the source by bisimulation (proptest + cargo)",
+   text="Generated checked programs (definition names from Rust keywords, prelude/candid names and case-conversion twins, odd labels, numeric ids, recursion, anonymous types at every path, init arguments) are translated by the Rust binding generator; each output becomes a module of one batch crate that is compiled by rustc; a module that does not compile is attributed to its program; every compiled module exports, through TypeContainer, the Candid type of each method argument/result, init argument and definition, which must be bisimilar to the source program's. Four regions where the generator is known to deviate are tolerated by exact signature and counted. Exploration: hundreds of programs per quick run.",
+   note="Only the type-level content of the binding is judged (the emitted call stubs are compiled, not executed); agent/stub targets are covered lexically in C19.",
+   ref="DESIGN.md §5 C18"),
  "C19": dict(
    technique="property-based totality/determinism testing plus lexical and name-set closure checks and a doc-comment injection metamorphic relation (proptest, per-language lexers)",
    text="All four generators (Rust in three targets) run on generated checked programs printed once with benign and once with hostile doc comments: no panic, identical output on re-run, output lexes and balances under the target's lexical grammar, token streams outside comments are identical for both doc texts, TypeScript/Motoko names are closed and unique, service methods appear exactly once, string literals decode to program names. Exploration; no TypeScript/Motoko compiler is available.",
